@@ -10,3 +10,6 @@ pub mod traverse;
 mod validation;
 
 pub use parser::{ParseFileResult, Parser};
+
+#[cfg(feature = "verif-hooks")]
+pub mod verif_hooks;
